@@ -16,9 +16,9 @@ MC_QUICK = [
     ("kary", 3, 1, 27, 10, 3), ("kary", 3, 2, 9, 7, 2), ("rkary", 3, 1, 2, 7, 2), ("kary", 4, 1, 16, 9, 2),
 ]
 MC_THOROUGH = [
-    ("bin", 2, 2, 8, 11, 3), ("bin", 2, 1, 16, 13, 4), ("rbin", 2, 1, 4, 9, 4), ("rbin", 2, 2, 3, 7, 3), ("dbin", 2, 2, 8, 13, 3),
-    ("dbin", 2, 1, 8, 11, 3), ("dbin", 2, 3, 4, 17, 2), ("kary", 3, 1, 27, 13, 3), ("kary", 3, 2, 9, 10, 2), ("kary", 4, 1, 64, 13, 3),
-    ("kary", 5, 1, 25, 11, 2), ("rkary", 3, 1, 3, 7, 2), ("rkary", 3, 2, 2, 7, 2), ("rkary", 4, 1, 2, 9, 2), ("kary", 2, 2, 8, 9, 3),
+    ("bin", 2, 2, 8, 15, 3), ("bin", 2, 1, 16, 17, 4), ("bin", 2, 3, 4, 11, 2), ("rbin", 2, 1, 4, 11, 4), ("rbin", 2, 2, 3, 9, 3), ("dbin", 2, 2, 8, 21, 3),
+    ("dbin", 2, 1, 8, 15, 3), ("dbin", 2, 3, 4, 17, 2), ("kary", 3, 1, 27, 19, 3), ("kary", 3, 2, 9, 16, 2), ("kary", 4, 1, 64, 21, 3),
+    ("kary", 5, 1, 25, 21, 2), ("rkary", 3, 1, 3, 10, 2), ("rkary", 3, 2, 2, 10, 2), ("rkary", 4, 1, 2, 9, 2), ("rkary", 5, 1, 2, 11, 2), ("kary", 2, 2, 8, 13, 3),
 ]
 EMIT = [
     ("bin", 2, 2, 4, 7, 2), ("rbin", 2, 1, 2, 5, 2), ("dbin", 2, 2, 4, 9, 2), ("kary", 3, 1, 9, 7, 2), ("rkary", 3, 1, 2, 4, 1),
